@@ -6,7 +6,7 @@ import ast
 
 from ..cfg import cfg_of
 from ..index import AnalysisError, function_stmts, walk_no_nested
-from ..util import callee_last, calls_in, kw, txt, enclosing_stmt, in_subtree
+from ..util import callee_last, calls_in, kw, txt, enclosing_stmt, in_subtree, path_condition, show_condition
 
 EXPLANATION = (
     "Static analysis of pandera/decorators.py (ast + per-function CFG). Decides: (R1) every schema.validate call "
@@ -20,7 +20,7 @@ EXPLANATION = (
     "argument binding over all signature shapes (inspect.signature semantics), from_format/to_format conversions."
 )
 LEVEL_RULE = "one obligation per validate call site / obj_getter branch / wrapper / forwarding call in decorators.py"
-FLOORS = {"R1": 7, "R2": 3, "R3": 4, "R4": 2, "R5": 5}
+FLOORS = {"R1": 7, "R2": 3, "R3": 4, "R4": 2, "R5": 5, "R6": 2, "R7": 2}
 
 DEC = "pandera/decorators.py"
 OPTS = ["head", "tail", "sample", "random_state", "lazy", "inplace"]
@@ -112,6 +112,59 @@ def run(ctx):
         ctx.touched(f)
         return f
 
+    # ---- R6 check_types: which arguments may reach the body unvalidated ----------------------------------------
+    ca = F("check_types.<_check_arg>")
+    ccfg = cfg_of(ca.node)
+    rd = ccfg.reaching_defs(skip_labels=("back",))   # per iteration: a failed validate of the previous Union member defines nothing
+    val = ca.positional[1] if len(ca.positional) > 1 else "arg_value"
+    validated_defs = {ccfg.node_of(s).id for s in function_stmts(ca) if isinstance(s, ast.Assign) and any(txt(t) == val for t in s.targets)
+                      and any(callee_last(c) == "validate" for c in calls_in(s))}
+    n6 = 0
+    for s in function_stmts(ca):
+        if not (isinstance(s, ast.Return) and isinstance(s.value, ast.Name) and s.value.id == val):
+            continue
+        node = ccfg.node_of(s)
+        defs = rd[node.id].get(val, set())
+        if defs & validated_defs:
+            continue  # the value returned here went through validate on the validating path (or already carries this schema)
+        n6 += 1
+        pc = path_condition(ccfg, node.id)
+        names, rows = pc
+        none_atoms = [i for i, nme in enumerate(names) if nme == f"{val} is None"]
+        opt_atoms = [i for i, nme in enumerate(names) if nme.endswith(".optional")]
+        # `x is None` excludes `isinstance(x, (int, str, ...))` (NoneType / object are not in the tuple)
+        inst_atoms = [i for i, nme in enumerate(names) if nme.startswith(f"isinstance({val},") and "None" not in nme and "object" not in nme]
+        bad_rows = [r for r in rows if any(r[i] for i in none_atoms) and not any(r[i] for i in opt_atoms) and not any(r[i] for i in inst_atoms)]
+        # a row in which the value is None and the annotation is not known to be Optional lets None reach the body
+        ok = not bad_rows
+        ctx.ob("R6", ca, f"unvalidated `return {val}` (line {s.lineno}) is not taken for None under a non-Optional annotation", ok,
+               f"reached under {show_condition(pc)[:160]}" if ok else
+               f"`return {val}` without validation is reached when `{val} is None` although the annotation is not Optional ({show_condition(pc)[:200]}): "
+               "None passes a DataFrame[Model] annotation and the body runs on it", ca.loc(s))
+    if n6 == 0:
+        raise AnalysisError("check_types._check_arg: no pass-through return found")
+    # ---- R7 coroutine detection looks through wrappers -------------------------------------------------------------
+    from ..util import Expander
+    n7 = 0
+    for f in m.all_functions:
+        ex = None
+        for c in calls_in(f.node):
+            if callee_last(c) == "iscoroutinefunction" and c.args:
+                n7 += 1
+                scopes = _closure_chain(f)
+                a = c.args[0]
+                seen_unwrap = False
+                for g in scopes:
+                    e = Expander(g.node).expand(a)
+                    if any(isinstance(x, ast.Call) and callee_last(x) == "_unwrap_fn" for x in ast.walk(e)):
+                        seen_unwrap = True
+                    a = e
+                ctx.ob("R7", f, f"`{txt(c)[:60]}` inspects the innermost function", seen_unwrap,
+                       "argument goes through _unwrap_fn" if seen_unwrap else
+                       "inspect.iscoroutinefunction does not follow __wrapped__: an `async def` that is already wrapped by another pandera decorator "
+                       "(check_io, stacked check_input/check_output) is treated as synchronous, so the un-awaited coroutine is validated", f.loc(c))
+    if n7 == 0:
+        raise AnalysisError("decorators.py: no coroutine detection found")
     # ---- R1 -----------------------------------------------------------------
     n_sites = 0
     for f in m.all_functions:
